@@ -8,11 +8,15 @@ import TrashVerif.Model.Prog
 namespace TrashVerif
 open Prog FS
 
-/-- follow a symlink in final position (what `os.stat`, `open`, `isdir` do) -/
+/-- follow a symlink in final position (what `os.stat`, `open`, `isdir` do); a canonical path that
+    does not end in a symlink is its own resolution -/
 def followC (fs : FS) (p : CPath) : Option CPath :=
-  match FS.resolve fs [] (FS.toStr p) true with
-  | .ok q => some q
-  | .error _ => none
+  match fs.get p with
+  | some (.link _) =>
+    match FS.resolve fs [] (FS.toStr p) true with
+    | .ok q => some q
+    | .error _ => none
+  | _ => some p
 
 def statC (fs : FS) (p : CPath) : Option Node := (followC fs p).bind fs.get
 def isdirC (fs : FS) (p : CPath) : Bool := match statC fs p with | some n => n.isDir | none => false
